@@ -24,6 +24,7 @@ def strategy(tier):
         st.tuples(st.just("exit"), i),
         st.tuples(st.just("reap"), i),
         st.tuples(st.just("recycle"), i, st.booleans()),
+        st.tuples(st.just("become"), i),
         st.tuples(st.just("mkproc"), i),
         st.tuples(st.just("mkproc"), i),
         st.tuples(st.just("clock_step"), st.sampled_from([-3600, -1, 1, 2, 37, 3600, 86400, -86400])),
@@ -100,6 +101,8 @@ def run_case(case):
                 w.exit(w.pick_pid(op[1]))
             elif kind == "reap":
                 w.reap(w.pick_pid(op[1]))
+            elif kind == "become":
+                w.become(w.pick_pid(op[1]))
             elif kind == "recycle":
                 if w.recycle(w.pick_pid(op[1]), zombie=op[2]) is not None:
                     sig.append("recycle")
